@@ -8,6 +8,11 @@
 (*                      context entries the caller asked for (properties,  *)
 (*                      client id, deadline) and the Thrift call bytes;    *)
 (*                      the tag is the transport's choice, not an input    *)
+(*   SupDisc(payload)   a discard is supplied: the timeout of the call     *)
+(*                      with this Thrift call is signalled to the          *)
+(*                      transport (the tag it names is the one the         *)
+(*                      transport gave that call: the tag of its Tdispatch *)
+(*                      frame)                                             *)
 (*   Bytes(data)        the connection accepted these bytes, in this order *)
 (*                      (what the peer's TCP stream will deliver)          *)
 (*   Closed(mid)        the connection was closed / failed; mid = 1 iff a  *)
@@ -32,30 +37,42 @@
 (*   C13.suppliedOnce  a supplied dispatch is on the wire at most once (a  *)
 (*                     second frame with its contents was not supplied)    *)
 (*   C13.discardTag    a Tdiscarded names the tag of an earlier Tdispatch  *)
-(*                     frame of this connection                            *)
+(*                     frame of this connection, and (when the driver      *)
+(*                     observes the supplied discards) of one that carried *)
+(*                     a call whose discard was supplied                   *)
+(*   C13.discardOnce   ... and that no earlier Tdiscarded has named: each  *)
+(*                     supplied discard is on the wire at most once (a     *)
+(*                     tag may be named again only after it was given to   *)
+(*                     another call that timed out as well)                *)
 (*   C13.discardReason ... followed by a reason (UTF-8 text)               *)
 (*   Tping             MuxWire!PingCheck: empty body                       *)
 (* Supplied payloads are pairwise distinct within a trace (harness.input), *)
 (* so a frame is attributed to a supplied dispatch by its Thrift call.     *)
 (* Not judged here (other properties): which tag is chosen (C11), whether  *)
-(* and when a supplied message is written at all (C12, C02).               *)
+(* and when a supplied message (dispatch or discard) is written at all,    *)
+(* and the order among discards (C12, C02).                                *)
 (***************************************************************************)
 EXTENDS MuxWire
 
 VARIABLES sbuf,      \* bytes accepted by the connection that are not yet a complete frame
           sup,       \* supplied dispatches, in order: [ctx, payload]
           used,      \* indices of sup already seen in a Tdispatch frame
-          dtags,     \* tags of the Tdispatch frames seen so far
+          dtags,     \* <<index in sup, tag>> of the Tdispatch frames seen so far
+          tdue,      \* indices of sup whose discard was supplied (timeout signalled to the transport)
+          named,     \* indices of sup already named by a Tdiscarded frame
+          strictD,   \* TRUE iff the driver observes supplied discards (else only "tag of an earlier Tdispatch")
           sclosed    \* "open" | "closed" | "closedMid"
-svars == <<sbuf, sup, used, dtags, sclosed>>
+svars == <<sbuf, sup, used, dtags, tdue, named, strictD, sclosed>>
 
-SInit == /\ sbuf = <<>> /\ sup = <<>> /\ used = {} /\ dtags = {} /\ sclosed = "open"
+SInitS(strict) == /\ sbuf = <<>> /\ sup = <<>> /\ used = {} /\ dtags = {} /\ tdue = {} /\ named = {}
+                  /\ strictD = strict /\ sclosed = "open"
+SInit == SInitS(TRUE)
 
 \* ------------------------------------------------------------ one complete frame
-\* f is a complete frame (its length prefix equals Len(f) - 4).  Returns [v, used, dtags].
-FrameJudge(f, u, dt) ==
+\* f is a complete frame (its length prefix equals Len(f) - 4).  Returns [v, used, dtags, named].
+FrameJudge(f, u, dt, nm) ==
   LET d    == DecFrame(f)
-      bad(c) == [v |-> c, used |-> u, dtags |-> dt]
+      bad(c) == [v |-> c, used |-> u, dtags |-> dt, named |-> nm]
   IN
   IF d.type = TdispatchT THEN
     LET b == DecDispatch(d.body) IN
@@ -68,13 +85,23 @@ FrameJudge(f, u, dt) ==
                                  frame |-> f, raised |-> "none"])
            IN IF chk # "ok" THEN bad(chk)
               ELSE IF j \in u THEN bad("C13.suppliedOnce")
-              ELSE [v |-> "ok", used |-> u \cup {j}, dtags |-> dt \cup {d.tag}]
+              ELSE [v |-> "ok", used |-> u \cup {j}, dtags |-> dt \cup {<<j, d.tag>>}, named |-> nm]
   ELSE IF d.type = TdiscardedT THEN
-    IF Len(d.body) < 3 \/ RdU24(d.body, 1) \notin dt THEN bad("C13.discardTag")
-    ELSE IF ~Utf8Decode(SubSeq(d.body, 4, Len(d.body))).ok THEN bad("C13.discardReason")
-    ELSE [v |-> "ok", used |-> u, dtags |-> dt]
+    IF Len(d.body) < 3 THEN bad("C13.discardTag")
+    ELSE LET which == RdU24(d.body, 1)
+             sent  == {j \in DOMAIN sup : <<j, which>> \in dt}     \* calls dispatched under this tag so far
+             due   == sent \cap tdue                               \* ... whose discard was supplied
+             fresh == due \ nm                                     \* ... and not yet named by a Tdiscarded
+         IN
+         IF sent = {} THEN bad("C13.discardTag")
+         ELSE IF ~Utf8Decode(SubSeq(d.body, 4, Len(d.body))).ok THEN bad("C13.discardReason")
+         ELSE IF ~strictD THEN [v |-> "ok", used |-> u, dtags |-> dt, named |-> nm]
+         ELSE IF due = {} THEN bad("C13.discardTag")
+         ELSE IF fresh = {} THEN bad("C13.discardOnce")
+         ELSE [v |-> "ok", used |-> u, dtags |-> dt,
+               named |-> nm \cup {CHOOSE j \in fresh : \A x \in fresh : j <= x}]
   ELSE IF d.type = TpingT THEN
-    [v |-> PingCheck([tag |-> -1, frame |-> f, raised |-> "none"]), used |-> u, dtags |-> dt]
+    [v |-> PingCheck([tag |-> -1, frame |-> f, raised |-> "none"]), used |-> u, dtags |-> dt, named |-> nm]
   ELSE bad("C13.type")
 
 \* ------------------------------------------------------------ framing of the stream
@@ -84,12 +111,13 @@ StreamStep(a, i) ==
   ELSE LET size == RdI32(a.rest, 1) IN
     IF size < 4 THEN [a EXCEPT !.v = "C13.frameLength"]      \* no room for the type byte and the tag
     ELSE IF Len(a.rest) < 4 + size THEN a                     \* incomplete: more bytes may follow
-    ELSE LET r == FrameJudge(SubSeq(a.rest, 1, 4 + size), a.used, a.dtags)
-         IN [rest |-> SubSeq(a.rest, 5 + size, Len(a.rest)), used |-> r.used, dtags |-> r.dtags, v |-> r.v]
+    ELSE LET r == FrameJudge(SubSeq(a.rest, 1, 4 + size), a.used, a.dtags, a.named)
+         IN [rest |-> SubSeq(a.rest, 5 + size, Len(a.rest)), used |-> r.used, dtags |-> r.dtags,
+             named |-> r.named, v |-> r.v]
 
 Parse(data) ==
   LET all == sbuf \o data
-  IN FoldLeft(StreamStep, [rest |-> all, used |-> used, dtags |-> dtags, v |-> "ok"],
+  IN FoldLeft(StreamStep, [rest |-> all, used |-> used, dtags |-> dtags, named |-> named, v |-> "ok"],
               Iota((Len(all) \div 8) + 1))          \* a frame has at least 8 bytes
 
 \* ------------------------------------------------------------ events
@@ -99,7 +127,14 @@ SupCheck(ctx, payload) ==
   ELSE "ok"
 SupUpd(ctx, payload) ==
   /\ sup' = Append(sup, [ctx |-> ctx, payload |-> payload])
-  /\ UNCHANGED <<sbuf, used, dtags, sclosed>>
+  /\ UNCHANGED <<sbuf, used, dtags, tdue, named, strictD, sclosed>>
+
+\* A discard is supplied for the call with this Thrift call (it must have been supplied as a dispatch).
+SupDiscCheck(payload) ==
+  IF ~IsBytes(payload) \/ ~(\E j \in DOMAIN sup : sup[j].payload = payload) THEN "harness.input" ELSE "ok"
+SupDiscUpd(payload) ==
+  /\ tdue' = tdue \cup {j \in DOMAIN sup : sup[j].payload = payload}
+  /\ UNCHANGED <<sbuf, sup, used, dtags, named, strictD, sclosed>>
 
 BytesCheck(data) ==
   IF ~IsBytes(data) \/ Len(data) = 0 THEN "harness.input"
@@ -107,13 +142,13 @@ BytesCheck(data) ==
   ELSE Parse(data).v
 BytesUpd(data) ==
   LET p == Parse(data)
-  IN /\ sbuf' = p.rest /\ used' = p.used /\ dtags' = p.dtags
-     /\ UNCHANGED <<sup, sclosed>>
+  IN /\ sbuf' = p.rest /\ used' = p.used /\ dtags' = p.dtags /\ named' = p.named
+     /\ UNCHANGED <<sup, tdue, strictD, sclosed>>
 
 ClosedCheck(mid) == IF mid \notin {0, 1} THEN "harness.input" ELSE "ok"
 ClosedUpd(mid) ==
   /\ sclosed' = IF sclosed # "open" THEN sclosed ELSE IF mid = 1 THEN "closedMid" ELSE "closed"
-  /\ UNCHANGED <<sbuf, sup, used, dtags>>
+  /\ UNCHANGED <<sbuf, sup, used, dtags, tdue, named, strictD>>
 
 \* ... followed by exactly that many bytes: a frame that was started is completed, unless the
 \* connection was closed / failed in the middle of the write.
